@@ -84,6 +84,10 @@ macro_rules! tree_test {
                     chk!($label, inp.clone(), "new(&mut slice) == from(vec)".to_string(), t3 == t, true);
                 }
                 chk!($label, inp.clone(), "clone() == self".to_string(), t.clone() == t, true);
+                if n >= 2 && s[n - 1] != s[n - 2] {
+                    let mut sw = s.clone(); sw.swap(n - 1, n - 2);
+                    chk!($label, inp.clone(), "the tree of the sequence with its last two symbols swapped compares unequal".to_string(), <$ty>::from(sw) == t, false);
+                }
                 chk!($label, inp.clone(), "collect().iter() == from(vec).iter()".to_string(), t2.iter().collect::<Vec<_>>(), s.clone());
                 chk!($label, inp.clone(), "new(slice).iter() == from(vec).iter()".to_string(), t3.iter().collect::<Vec<_>>(), s.clone());
             }
@@ -272,6 +276,36 @@ fn bitvector_test(rng: &mut StdRng) {
         let bi: BitVector = pos.iter().copied().collect();
         chk!("BitVector", format!("len {} ones at {:?}...", m, &pos[..pos.len().min(5)]), "from positions == from bools".to_string(), ai == bi, true);
         chk!("BitVector", format!("len {}", m), "clone == self, into/from round trip".to_string(), (ai.clone() == ai, BitVector::from(BitVectorMut::from(ai.clone())) == ai), (true, true));
+    }
+    {
+        // C19: position lists in any order, with repetitions: same vector whatever the path; different vectors are unequal
+        let m = [5usize, 64, 65, 130, 513, 700][rng.gen_range(0..6)];
+        let cnt = rng.gen_range(1..8);
+        let ps: Vec<usize> = (0..cnt).map(|_| rng.gen_range(0..m)).collect();
+        let top = *ps.iter().max().unwrap();
+        let mut bits = vec![false; top + 1];
+        for &p in &ps { bits[p] = true; }
+        let from_bools: BitVector = bits.iter().copied().collect();
+        let via_mut: BitVector = ps.iter().copied().collect::<BitVectorMut>().into();
+        let direct: BitVector = ps.iter().copied().collect();
+        let direct16: BitVector = ps.iter().map(|&p| p as u16).collect();
+        let label = format!("positions {:?}", ps);
+        chk!("BitVector", label.clone(), "collect::<BitVectorMut>().into() == from bools".to_string(), via_mut == from_bools, true);
+        chk!("BitVector", label.clone(), "collect::<BitVector>() (usize, u16) == from bools".to_string(), (direct == from_bools, direct16 == from_bools), (true, true));
+        chk!("BitVector", label.clone(), "count_ones of the position-built vectors".to_string(), (via_mut.count_ones(), direct.count_ones()), (bits.iter().filter(|&&b| b).count(), bits.iter().filter(|&&b| b).count()));
+        let mut ext = BitVectorMut::new();
+        ext.extend(ps.iter().copied()); ext.extend(ps.iter().copied());
+        chk!("BitVectorMut", label.clone(), "extend with the same positions twice".to_string(), (BitVector::from(ext.clone()) == from_bools, ext.count_ones()), (true, bits.iter().filter(|&&b| b).count()));
+        // two vectors that differ only in their last (partial) word, same length and same number of ones
+        if top >= 2 {
+            let mut other = bits.clone();
+            if let Some(z) = (0..top).rev().find(|&i| !other[i]) { other[z] = true; other[top] = false; other.truncate(top + 1);
+                let o: BitVector = other.iter().copied().collect();
+                chk!("BitVector", label.clone(), "a vector with one one moved inside the last word compares unequal".to_string(), o == from_bools, false);
+                chk!("RSWide/RSNarrow/DArray", label.clone(), "structures over different vectors compare unequal".to_string(),
+                     (RSWide::new(o.clone()) == RSWide::new(from_bools.clone()), RSNarrow::new(o.clone()) == RSNarrow::new(from_bools.clone()), DArray::<true>::new(o.clone()) == DArray::<true>::new(from_bools.clone())), (false, false, false));
+            }
+        }
     }
     let filtered: BitVectorMut = model.iter().copied().filter(|_| true).collect();
     chk!("BitVectorMut", hist.clone(), "collect through filter == the vector".to_string(), filtered == bv, true);
